@@ -1344,7 +1344,8 @@ class _AlwaysSortable(object):
     __slots__ = ('value', )
 
     def __init__(self, value):
-        self.value = value
+        # A key may be wrapped in a comment; it sorts like the bare key.
+        self.value = unwrap_comments(value)[0]
 
     def sortable_value(self):
         # Values that can't be compared are grouped by their type.
